@@ -16,6 +16,10 @@ ALLOWED_AXIOMS = {
 }
 
 
+# native machine types/operations (Coq primitives; listed by Print Assumptions, not axioms of ours)
+PRIMITIVES = {"float", "int", "classify", "frshiftexp", "normfr_mantissa", "of_uint63", "ldshiftexp", "next_up", "next_down", "sqrt", "abs", "compare"}
+
+
 def pin_env():
     """Force the implementation under test to be /repo's working tree; fix hash seed; CUDA simulator."""
     os.environ["PYTHONPATH"] = REPO
@@ -299,7 +303,8 @@ class Check:
         ax, closed = parse_assumptions(out)
         for a in ax:
             short = a
-            if not any(a.endswith(x.split(".")[-1]) for x in ALLOWED_AXIOMS) and not re.match(r'(PrimFloat|Uint63|PrimInt63|FloatAxioms|PrimString)\.', a):
+            if not any(a.endswith(x.split(".")[-1]) for x in ALLOWED_AXIOMS) and not re.match(r'(PrimFloat|Uint63|PrimInt63|FloatAxioms|PrimString)\.', a) \
+               and a not in PRIMITIVES:
                 self.obligation("axiom-allowed:" + a, False, "unexpected axiom in Print Assumptions")
         self.trusted.append("Print Assumptions (%s): %s; closed=%d" % (pfile, ", ".join(ax) if ax else "none", closed))
         bad = scan_sources()
@@ -309,7 +314,7 @@ class Check:
     # violations ---------------------------------------------------------------
     def is_known(self, tag, inp):
         for k in self.known:
-            if k.get("tag") == tag:
+            if k.get("tag") == tag or (k.get("tag_prefix") and str(tag).startswith(k["tag_prefix"])):
                 pred = k.get("when")
                 try:
                     if pred is None or eval(pred, {"math": math}, dict(inp if isinstance(inp, dict) else {"x": inp})):
